@@ -18,10 +18,10 @@ SPEC = {
     'assumptions': [
         'typed decoding consumes the bytes decoding into interface{} consumes (the wire models have one decode parser; the typed drivers calls are modelled as functions of the decoded tree, Generic/Dec.v); checked on the implementation by the seq stream (NumBytesRead after typed / naked / Raw / struct-with-unknown-fields positions)',
         'the bytes nextValueBytes returns are the input bytes the walker passed (reader recording: bytesDecReader z.b[z.r:z.c], ioDecReader buf): modelled as [capture] for cbor/msgpack/binc, explicit in the simple model; checked by the Raw-bytes oracle on both transports',
-        'cbor: C11_cbor_seq covers every item lib_supports_t admits (times only in the RFC 3339 form, UTC year 0..9999); the tag-1 float form of a non-zero time is covered by the harness only',
+        'cbor: C11_cbor_seq covers every item lib_supports_t admits (times in the RFC 3339 form, UTC year 0..9999); C11_cbor_seq_floattime (C11/CborFT.v, SeqFT.v) extends the decode law to the tag-1 epoch form (integer seconds or sec + nsec/1e9 in binary64) wherever it occurs, for every instant the library accepts back (|seconds| <= 2^62); the decoded instant is the closed expression time_of_float (epoch_f64 s n) over the bit-level float model Wire/CborFloat.v (tied by the Wcbor leaf cases, not verified against the hardware); that this equals the encoder microsecond rounding for |seconds| < 2^33 is shown on sample instants and was checked numerically, not proved for all instants',
         'the wire models pass the nesting depth DOWN as a function argument (Msgpack.skip_at D depth0, Simple.nvb D fuel depth, Binc.skip o rf lf dep, Cbor.skip D f d) and never return it, so a walker arm that forgets depthDecr is not expressible in them: depth balance per call holds by construction of the models and cannot be stated as a theorem without threading the counter as state in the wire files; the implementation side of that balance is checked by the long stream (ONE Decoder, 60..2500 records with the container family in skipped / Raw positions, lowered and default MaxDepth)',
         'wire models hand written, tied by their own checks (Wcbor, Wmsgpack, Wsimple, Wbinc) and here by the model stream (sequences on one Encoder / one Decoder)',
-        'json: C11_json_skip_partial / C11_json_raw_partial / C11_json_seq_partial are stated for the C09 leaf c09_leaf_of O; the string and integer laws are discharged from the C09 theorems (Wire/JsonLeaf.v c09_leaf_laws); the remaining hypothesis is float_time_laws: strconv shortest float formatting, parseFloat64 on the texts the encoder writes and the RFC 3339 time text (oracle, not modelled); on the implementation the json half is checked by the direct oracle (seq stream), the json wire correspondence is Wjson\'s',
+        'json: C11_json_skip / C11_json_raw / C11_json_seq are stated for the C09 leaf c09_leaf_of O under JsonOracle.strconv_time_oracle_laws O alone: of the eleven leaf laws the wire lemmas need, the string laws and the digit law are proved from the C09 theorems (W_json_leaf_str_int), the integer read-back laws are proved except under PreferFloat (the integer text then goes to parseFloat64); the float read-back laws are guarded per float and option vector by num_read_ok inside jwf (a float whose text is a bare integer literal of 2^63 or more is not read back under SignedInteger without PreferFloat: strconv writes 1e19 as 10000000000000000000, the class of F15-1) and under the guard reduce to parseFloat64 accepting the text (JsonOracle.naked_num_guarded; C11_json_reads_back characterises the unguarded law); what remains is about the four oracle functions only, each clause true of strconv / time: the time text has no quote/backslash, a finite float text is made of number characters, parseFloat64 accepts the float texts and the decimal integer texts the encoder writes; C11_json_oracle_exact proves this equivalent to the float_time_laws hypothesis of the older _partial statements (strconv and the time layout are not modelled: oracle); on the implementation the json half is checked by the direct oracle (seq stream), the json wire correspondence is Wjson\'s',
     ],
     'trusted_extra': ['modelled, not verified: decoder.swallow / structFieldNotFound / kArray excess-element handling, rawBytes, Encoder.rawBytes (writeBytesAsis) - exercised by the seq stream oracle only'],
 }
@@ -32,6 +32,6 @@ def main(chk):
 MANIFEST = {
     'category': 'proof',
     'technique': 'Coq proof (induction on the value list over an abstract record of per-value laws, instantiated with the wire theorems of four formats) + vm_compute correspondence of the sequence model against one real Encoder / one real Decoder + direct oracle on the API (five formats, bytes and io transports, random consumer per position)',
-    'text': 'C11_seq_generic / C11_seq_exact_generic: for any format whose decode and walker obey the per-value laws, any number of values and any per-position consumer (typed, interface{}, skip, Raw), the stream of successive Encode calls is read back in order and completely and NumBytesRead after call i is the sum of the first i encoding lengths (within the format\'s delimiter slack). Instantiated (closed by exact) for msgpack, simple, binc (symbol tables threaded; F11-1 repaired), cbor (C11_cbor_seq / C11_cbor_extent / C11_cbor_raw_redecode: full over the extended decode law Wcbor_dec_enc, which admits times written under TimeRFC3339 - C11_cbor_time_admitted; the tag-1 float form of non-zero times stays in the _partial theorems) and json (C11_json_*_partial for the C09 leaf: tokenizer state with the pending token as per-instance state, slack = 1 = the one permitted delimiter; string and integer laws discharged from C09, partial because float_time_laws - strconv float formatting / parsing and the time text oracle - remains a hypothesis); per-format skip / raw extents from the wire theorems.',
-    'note': 'Trusted: Coq kernel, hand-written wire models (tied by their own checks and by the model stream here), the reading of typed decoding as a function of the decoded tree, Go toolchain. the json theorems hold under float_time_laws (strconv float texts and the time text are an oracle); cbor times in the float form are outside the proved decode law.',
+    'text': 'C11_seq_generic / C11_seq_exact_generic: for any format whose decode and walker obey the per-value laws, any number of values and any per-position consumer (typed, interface{}, skip, Raw), the stream of successive Encode calls is read back in order and completely and NumBytesRead after call i is the sum of the first i encoding lengths (within the format\'s delimiter slack). Instantiated (closed by exact) for msgpack, simple, binc (symbol tables threaded; F11-1 repaired), cbor (C11_cbor_seq / C11_cbor_extent / C11_cbor_raw_redecode: full over the extended decode law Wcbor_dec_enc, which admits times written under TimeRFC3339 - C11_cbor_time_admitted; C11_cbor_seq_floattime / C11_cbor_extent_floattime / C11_cbor_raw_redecode_floattime: the decode law extended to the tag-1 epoch form of times, integer or binary64 seconds, anywhere in the values - C11_cbor_floattime_admitted gives the decoded instant as time_of_float (epoch_f64 s n), i.e. microsecond rounding, binary64 rounding of sec + usec/1e6, microsecond rounding again; C11_cbor_floattime_subsumes: nothing C11_cbor_seq admits is lost) and json (C11_json_skip / C11_json_raw / C11_json_seq for the C09 leaf: tokenizer state with the pending token as per-instance state, slack = 1 = the one permitted delimiter; every dischargeable leaf law discharged from C09, the only hypothesis is strconv_time_oracle_laws O about strconv float texts, parseFloat64 and the time text, equivalent to the float_time_laws of the kept _partial statements - C11_json_oracle_exact); per-format skip / raw extents from the wire theorems.',
+    'note': 'Trusted: Coq kernel, hand-written wire models (tied by their own checks and by the model stream here), the reading of typed decoding as a function of the decoded tree, Go toolchain. the json theorems hold under strconv_time_oracle_laws (strconv float texts, parseFloat64 and the time text are an oracle); cbor times in the epoch form decode to time_of_float (epoch_f64 s n) on the bit-level float model: equal to the microsecond rounding on sampled instants below 2^33 s, lossy from 2^33 s on (C11_cbor_floattime_loss_nonvacuous), the general cancellation is not proved.',
 }
